@@ -1,6 +1,6 @@
 (* C08 - fits are equivariant under relabelling and changes of coordinates *)
 From Coq Require Import QArith List Bool Arith Permutation.
-From TW Require Import GJModel LSQ Rscale Shift Weights Clip ClipPerm Equivariance Unique EquivSim EquivScaleW Rscale2 EquivTranslate.
+From TW Require Import GJModel LSQ Rscale Shift Weights Clip ClipPerm Equivariance Unique EquivSim EquivScaleW Rscale2 EquivTranslate EquivSimGeneral.
 Import ListNotations.
 Open Scope Q_scope.
 
@@ -113,11 +113,25 @@ Theorem C08_similarity : forall (refl : bool) m n l a b c d e g, ~ (m * m + n * 
 Proof. exact ssr_tot_similarity. Qed.
 Print Assumptions C08_similarity.
 
+(* parameter level for the general family: the fit of similarity-transformed data IS the conjugate T F T^-1 with
+   shift T s (cj below spells out the six parameters) *)
+Theorem C08_similarity_general_params : forall refl m n l p q p' q' a b c,
+  ~ (m * m + n * n == 0) ->
+  (forall z, In z l -> 0 <= pw z) ->
+  fit_general l = FitOk p q -> fit_general (map (sim refl m n) l) = FitOk p' q' ->
+  In a l -> In b l -> In c l -> 0 < pw a -> 0 < pw b -> 0 < pw c -> noncollinear3 a b c ->
+  let '(a', b', c', d', e', g') :=
+      cj refl m n (qnth p 0) (qnth p 1) (qnth q 0) (qnth q 1) (qnth p 2) (qnth q 2) in
+  (qnth p' 0 == a' /\ qnth p' 1 == b' /\ qnth p' 2 == e') /\
+  (qnth q' 0 == c' /\ qnth q' 1 == d' /\ qnth q' 2 == g').
+Proof. exact general_fit_similarity_params. Qed.
+Print Assumptions C08_similarity_general_params.
+
 (* Uniqueness of the minimiser (Props/C06: C06_general_unique, C06_rscale_unique) turns the objective-level
-   statements into equalities of the fitted parameters; this is carried out above for permutations of the general
-   and the similarity families. For weight scaling / centre / similarity transforms the parameter-level
-   statements follow the same way and are covered numerically by the correspondence (metamorphic pairs on the
-   implementation + agreement of every run with the exact model). *)
+   statements into equalities of the fitted parameters; this is carried out above for permutations (general and
+   similarity families), positive weight scaling (similarity family), translations / centres and similarity
+   transforms (general family). The remaining combinations are covered numerically by the correspondence
+   (metamorphic pairs on the implementation + agreement of every run with the exact model). *)
 
 (* non-vacuity *)
 Example C08_perm_witness :
